@@ -385,7 +385,9 @@ class TimeFixedGFormula:
                 treated = []
                 for c, prop in zip(conditional, p):
                     gs = g.loc[eval(c)].copy()
-                    pr = gs[self._weights] / np.sum(gs[self._weights]) if self._weights is not None else None
+                    # a condition nobody meets selects no one: there are no sampling probabilities to normalise
+                    pr = (gs[self._weights] / np.sum(gs[self._weights])
+                          if (self._weights is not None and gs.shape[0] > 0) else None)
                     tr = np.random.choice(gs.index, size=int(prop*gs.shape[0]), replace=False, p=pr)
                     treated.extend(tr)
 
